@@ -4,6 +4,7 @@ import (
 	"fmt"
 	"go/token"
 	"go/types"
+	"sort"
 	"strings"
 
 	"golang.org/x/tools/go/ssa"
@@ -64,6 +65,12 @@ func (fe *FnExec) execInstr(fr *frame, st *State, in ssa.Instruction) {
 		fe.regs[x] = fe.doBinOp(fr, st, x)
 	case *ssa.Call:
 		fe.regs[x] = fe.doCall(fr, st, x, x.Common(), x.Type())
+		if !fr.inlined && fr == fe.top {
+			if fe.callPC == nil {
+				fe.callPC = map[*ssa.Call]Term{}
+			}
+			fe.callPC[x] = st.pc
+		}
 	case *ssa.Extract:
 		t := fe.val(x.Tuple)
 		if tv, ok := t.(TupleV); ok && x.Index < len(tv.E) {
@@ -211,8 +218,20 @@ func (fe *FnExec) execInstr(fr *frame, st *State, in ssa.Instruction) {
 			}
 		}
 		fe.regs[x] = sv
+		if first, ok := fr.ords[in]; ok && strings.HasPrefix(first, "send#") {
+			k := 0
+			fmt.Sscanf(first, "send#%d", &k)
+			for _, stt := range x.States {
+				if stt.Dir == types.SendOnly {
+					// what a select offers on a channel is asserted whether or not that case is the one chosen
+					fe.sendAsserts(fr, st, fmt.Sprintf("send#%d", k), fe.val(stt.Chan), fe.val(stt.Send), x.Pos())
+					k++
+				}
+			}
+		}
 	case *ssa.Send:
 		fe.abstracted["send"]++
+		fe.sendAsserts(fr, st, fr.ords[in], fe.val(x.Chan), fe.val(x.X), x.Pos())
 	case *ssa.Go:
 		fe.doGo(fr, st, x)
 	case *ssa.Defer:
@@ -676,6 +695,21 @@ func (fe *FnExec) doTypeAssert(fr *frame, st *State, x *ssa.TypeAssert) Val {
 	if x.CommaOk {
 		okc := fe.fresh("ok", "Bool")
 		fe.assume(tEq(okc, ok), "type assertion result")
+		// v, ok := x.(T): when the assertion fails v is the zero value — for an interface or pointer T, nil
+		switch r := res.(type) {
+		case RefV:
+			t := tIte(okc, r.T, "0")
+			if fe.okRefs == nil {
+				fe.okRefs = map[Term]bool{}
+			}
+			fe.okRefs[t] = true
+			res = RefV{t}
+		case PtrV:
+			if r.Cell == nil {
+				r.Base = tIte(okc, r.Base, "0")
+				res = r
+			}
+		}
 		return TupleV{E: []Val{res, BoolV{okc}}}
 	}
 	ord := fr.ords[x]
@@ -811,6 +845,9 @@ func (fe *FnExec) doReturn(fr *frame, st *State, x *ssa.Return) {
 	}
 	fr.rets = append(fr.rets, st.clone())
 	fr.retVals = append(fr.retVals, rv)
+	if !fr.inlined && (fr.con == nil || !fr.con.Trusted) {
+		fe.errPropObligations(fr, st, x, rv)
+	}
 	if fr.con == nil || fr.inlined || fr.con.Trusted {
 		return // a trusted contract is assumed by callers; only the safety obligations of its body are generated
 	}
@@ -891,5 +928,82 @@ func (fe *FnExec) lookupAssumes(fr *frame, st *State, x *ssa.Lookup, v Val) {
 		ctx.binds["arg0"], ctx.binds["key"], ctx.binds["value"] = fe.val(x.X), fe.val(x.Index), v
 		fe.assume(tImp(st.pc, ctx.evalBool(a.X)), "map invariant "+a.Label)
 		fe.eng.noteSiteAssume(fr.name, fr.ords[x], a)
+	}
+}
+
+// errPropObligations: the error-propagation family.  For every call of the function whose last result is an error,
+// at every return of a function that itself returns an error: if that call was executed on this path and reported an
+// error, the function reports an error.  Legitimate code handles some errors (io.EOF as a clean end, not-found as a
+// verdict), so these obligations are not demanded: only those that hold on the tree the expectation lists were
+// written from are expected (like every other obligation) — from then on a change that swallows the error fails.
+func (fe *FnExec) errPropObligations(fr *frame, st *State, x *ssa.Return, rv []Val) {
+	if fr != fe.top || fe.quiet || len(rv) == 0 {
+		return
+	}
+	sig := fr.fn.Signature
+	n := sig.Results().Len()
+	errT := types.Universe.Lookup("error").Type()
+	if n == 0 || !types.Identical(sig.Results().At(n-1).Type(), errT) {
+		return
+	}
+	ret, ok := rv[n-1].(RefV)
+	if !ok {
+		return
+	}
+	var sites []string
+	for site := range fr.callIdx {
+		sites = append(sites, site)
+	}
+	sort.Strings(sites)
+	for _, site := range sites {
+		call, ok := fr.callIdx[site].(*ssa.Call)
+		if !ok {
+			continue
+		}
+		pcCall, executed := fe.callPC[call]
+		if !executed {
+			continue
+		}
+		rt := call.Type()
+		var ev Val
+		if tup, isT := rt.(*types.Tuple); isT {
+			if tup.Len() == 0 || !types.Identical(tup.At(tup.Len()-1).Type(), errT) {
+				continue
+			}
+			tv, ok := fe.regs[call].(TupleV)
+			if !ok || len(tv.E) != tup.Len() {
+				continue
+			}
+			ev = tv.E[tup.Len()-1]
+		} else if types.Identical(rt, errT) {
+			ev = fe.regs[call]
+		} else {
+			continue
+		}
+		e, ok := ev.(RefV)
+		if !ok {
+			continue
+		}
+		goal := tImp(tNot(tEq(e.T, "0")), tNot(tEq(ret.T, "0")))
+		fe.oblige(fr, fmt.Sprintf("errprop[%s]@ret%d", site, len(fr.rets)-1), nil, tAnd(st.pc, pcCall), goal, x.Pos(),
+			"an error reported by "+site+" on this path is reported by the function")
+	}
+}
+
+// sendAsserts: channel contents are not modelled, but a contract may say what is sent: `call[send#k] assert l: e`
+// over arg0 (the channel) and arg1 (the value).
+func (fe *FnExec) sendAsserts(fr *frame, st *State, site string, ch, v Val, pos token.Pos) {
+	if fr.con == nil || site == "" {
+		return
+	}
+	cs := fr.con.Calls[site]
+	if cs == nil {
+		return
+	}
+	for _, a := range cs.Asserts {
+		ctx := fe.ctxFor(fr, st)
+		ctx.binds["arg0"], ctx.binds["arg1"] = ch, v
+		g := ctx.evalBool(a.X)
+		fe.oblige(fr, fmt.Sprintf("call[%s].assert:%s", site, a.Label), a.Props, st.pc, g, pos, a.Src)
 	}
 }
